@@ -101,20 +101,28 @@ def cfg_id(roots, mods):
 
 ALL_CFG = list(range(8))
 # plan rows: (forms, depths, config ids, max n for the pattern/abs families, max n for the separator-mix family)
+_AO = cfg_id("abs", False)
+_TM = cfg_id("two", True)
+OTHER_TAGS = ["X", "N", "A", "S"]
 PLANS = {
     "quick": [
-        (["G"], [0], ALL_CFG, 4, 3),
-        (["H"], [0], ALL_CFG, 3, 3),
-        (["I"], [0, 1, 2, 3], [cfg_id("abs", False)], 4, 3),
-        (TAG_FORMS, [0, 1, 2, 3], [cfg_id("abs", False), cfg_id("two", True)], 3, 3),
+        (["G"], [0], [_AO, _TM], 4, 3),
+        (["G"], [0], ALL_CFG, 3, 2),
+        (["H"], [0], [_AO], 3, 2),
+        (["H"], [0], ALL_CFG, 2, 2),
+        (["I"], [1], [_AO], 4, 2),
+        (["I"], [0, 1, 2, 3], [_AO, _TM], 3, 2),
+        (OTHER_TAGS, [0, 1, 2, 3], [_AO], 3, 2),
+        (OTHER_TAGS, [0, 1, 2, 3], [_TM], 2, 2),
     ],
     "thorough": [
-        (["G"], [0], [cfg_id("abs", False), cfg_id("two", True)], 6, 4),
-        (["G"], [0], ALL_CFG, 5, 4),
+        (["G"], [0], [_AO], 6, 4),
+        (["G"], [0], [_TM], 5, 4),
+        (["G"], [0], ALL_CFG, 5, 3),
         (["H"], [0], ALL_CFG, 4, 3),
-        (["I"], [0, 1, 2, 3], [cfg_id("abs", False)], 5, 4),
-        (TAG_FORMS, [0, 1, 2, 3], [cfg_id("abs", False), cfg_id("two", True)], 4, 3),
-        (TAG_FORMS, [0, 1, 2, 3], ALL_CFG, 3, 3),
+        (["I"], [0, 1, 2, 3], [_AO], 5, 3),
+        (TAG_FORMS, [0, 1, 2, 3], [_AO, _TM], 4, 3),
+        (TAG_FORMS, [0, 1, 2, 3], ALL_CFG, 3, 2),
     ],
 }
 
@@ -549,7 +557,7 @@ def run_case(w, ci, form, depth, uri_t):
     del lk.rec[:]
 
     roots = w.rootnames(cfg)
-    shape = uri_shape(form, uri_t)
+    shape = "%s"
     viols = []
 
     # oracle 1: every Template handed out has its source file inside a configured root
@@ -580,7 +588,7 @@ def run_case(w, ci, form, depth, uri_t):
                 if wr:
                     if not (cfg["mods"] and top == "mods"):
                         where = "root" if top in roots else "tree"
-                        viols.append(("write-outside-module-directory[%s]: %s" % (where, shape),
+                        viols.append(("write-outside-module-directory[" + where + "]: %s",
                                       "2/5 files are created only beneath module_directory",
                                       "writes only under mods/" if cfg["mods"] else "no writes", {"event": ev, "path": rel}))
                 else:
@@ -589,7 +597,7 @@ def run_case(w, ci, form, depth, uri_t):
                                       "reads only under " + "|".join(roots), {"event": ev, "path": rel}))
             else:
                 if not ap.startswith(w.whitelist):
-                    viols.append(("%s-foreign: %s" % ("write" if wr else "open", shape),
+                    viols.append((("write" if wr else "open") + "-foreign: %s",
                                   "2 no file outside the configured directories is touched",
                                   "nothing outside the scratch tree", {"event": ev, "path": ap}))
     for text, what in ((out, "output"), (etext, "exception text")):
@@ -597,7 +605,7 @@ def run_case(w, ci, form, depth, uri_t):
             for m in _MARK.finditer(text):
                 top = m.group(1).split("/", 1)[0]
                 if top not in roots:
-                    viols.append(("leak[%s]: %s" % (what, shape), "2 no content of an outside file reaches output or exception text",
+                    viols.append(("leak[" + what + "]: %s", "2 no content of an outside file reaches output or exception text",
                                   "only markers of files under " + "|".join(roots), {what: text[:200]}))
                     break
 
@@ -606,7 +614,7 @@ def run_case(w, ci, form, depth, uri_t):
     if "{ABS" in uri_t:
         nontriv = True
     if must and kind != "refused":
-        viols.append(("not-refused[%s]: %s" % (kind.split(":")[0], shape),
+        viols.append(("not-refused[" + kind.split(":")[0] + "]: %s",
                       "4 a URI resolving outside every configured directory raises TemplateLookupException",
                       "TemplateLookupException" if form != "H" else "False", {"outcome": kind, "text": (etext or out or "")[:200]}))
 
@@ -635,13 +643,17 @@ def run_case(w, ci, form, depth, uri_t):
         "nontrivial": nontriv,
         "nrecs": len(recs),
     }
-    # de-duplicate signatures within the case
+    if not viols:
+        return obs, viols
+    # de-duplicate signatures within the case; the URI shape is part of the footprint
+    shape = uri_shape(form, uri_t)
     seen = set()
     uniq = []
     for v in viols:
-        if v[0] not in seen:
-            seen.add(v[0])
-            uniq.append(v)
+        sig = v[0].replace("%s", shape)
+        if sig not in seen:
+            seen.add(sig)
+            uniq.append((sig,) + tuple(v[1:]))
     return obs, uniq
 
 
